@@ -25,7 +25,7 @@ def gen(c, chunkings):
         kw["_what"] = what
         kw["_base"] = base
         out.append(kw)
-    lens = [0, 1, 16, 33] if c.quick else [0, 1, 15, 16, 17, 255, 1024]
+    lens = [0, 1, 16, 33] if c.quick else [0, 1, 15, 16, 17, 64, 255]
     for f, cipher, api in SCHEMES:
         for ml in lens:
             taglens = [16, 12] if f == "gcm_dec" else ([16, 4, 10] if f == "ccm_dec" else [32])
@@ -74,7 +74,7 @@ def gen(c, chunkings):
                     x = bytearray(p["aad"]); x[i // 8] ^= 1 << (i % 8)
                     case("aad:bit%d" % i, aad=bytes(x))
                 nb = len(body) * 8
-                bits = range(nb) if (not c.quick or nb <= 8 * 56) else list(range(0, 8 * 8)) + list(range(nb - 8 * 48, nb))
+                bits = range(nb) if ((not c.quick and nb <= 8 * 120) or nb <= 8 * 56) else (list(range(0, 8 * 8)) + list(range(nb - 8 * 48, nb)) + ([] if c.quick else list(range(64, nb - 384, 5))))
                 for i in bits:
                     x = bytearray(body); x[i // 8] ^= 1 << (i % 8)
                     case("body:bit%d" % i, b=bytes(x))
